@@ -21,6 +21,8 @@ EXPLANATION = (
 )
 EXPLANATION_ADD = ' Additions: (VAL-flow) every validator verdict computed by advance_*_with_validator is part of the decided value on every arm; (GS-mac-bypass) the only way around the MAC comparison is the bare ignore_macs flag.'
 EXPLANATION = EXPLANATION + EXPLANATION_ADD
+EXPLANATION_ADD6 = ' Round-6 addition: (SIB-onehop-beta) both set_second_hop implementations (one-hop view and model) chain the second hop with mac_beta_step over the MAC of hop 0, the previous hop.'
+EXPLANATION = EXPLANATION + EXPLANATION_ADD6
 RESIDUAL = ["that the chaining rules make every authentic path verify at every hop in both directions (values)",
             "tamper detection 'no later than at the owning AS' (values)"]
 ASSUMPTIONS = ["cmac/aes crates compute AES-CMAC", "Ok(ValidationFailed(..)) is by the documented API contract an advanced path plus a verdict, not a failure"]
